@@ -550,7 +550,7 @@ func (r *collection) addService(service any, lifetime Lifetime, opts ...AddOptio
 		outputs := make([]*Descriptor, 0, len(descriptor.resultFields))
 		for _, field := range descriptor.resultFields {
 			// Create a descriptor for each field type
-			fieldDescriptor := &Descriptor{
+			outputs = append(outputs, &Descriptor{
 				Type:            field.Type,
 				Key:             field.Key,
 				Lifetime:        descriptor.Lifetime,
@@ -565,22 +565,16 @@ func (r *collection) addService(service any, lifetime Lifetime, opts ...AddOptio
 				resultFields:    descriptor.resultFields,
 				isParamObject:   descriptor.isParamObject,
 				paramFields:     descriptor.paramFields,
-			}
-
-			// Register the field descriptor
-			if err := r.registerDescriptor(fieldDescriptor); err != nil {
-				return &RegistrationError{
-					ServiceType: field.Type,
-					Operation:   "register result object field",
-					Cause:       err,
-				}
-			}
-
-			outputs = append(outputs, fieldDescriptor)
+			})
 		}
 
 		for _, output := range outputs {
 			output.outputs = outputs
+		}
+
+		// Register the field descriptors (all of them, or none if one is rejected)
+		if err := r.registerDescriptors(outputs, "register result object field"); err != nil {
+			return err
 		}
 
 		// Don't register the result object type itself
@@ -625,20 +619,16 @@ func (r *collection) addService(service any, lifetime Lifetime, opts ...AddOptio
 					typeDescriptor.Key = nil
 				}
 
-				// Register each type descriptor
-				if err := r.registerDescriptor(typeDescriptor); err != nil {
-					return &RegistrationError{
-						ServiceType: ret.Type,
-						Operation:   "register multi-return type",
-						Cause:       err,
-					}
-				}
-
 				outputs = append(outputs, typeDescriptor)
 			}
 
 			for _, output := range outputs {
 				output.outputs = outputs
+			}
+
+			// Register the type descriptors (all of them, or none if one is rejected)
+			if err := r.registerDescriptors(outputs, "register multi-return type"); err != nil {
+				return err
 			}
 
 			return nil
@@ -662,7 +652,7 @@ func (r *collection) addService(service any, lifetime Lifetime, opts ...AddOptio
 			}
 
 			// Create a new descriptor for the interface type
-			interfaceDescriptor := &Descriptor{
+			aliases = append(aliases, &Descriptor{
 				Type:             interfaceType,
 				Key:              descriptor.Key,
 				Lifetime:         descriptor.Lifetime,
@@ -679,18 +669,7 @@ func (r *collection) addService(service any, lifetime Lifetime, opts ...AddOptio
 				resultFields:     descriptor.resultFields,
 				isParamObject:    descriptor.isParamObject,
 				paramFields:      descriptor.paramFields,
-			}
-
-			// Register the interface descriptor
-			if err := r.registerDescriptor(interfaceDescriptor); err != nil {
-				return &RegistrationError{
-					ServiceType: interfaceType,
-					Operation:   "register as interface",
-					Cause:       err,
-				}
-			}
-
-			aliases = append(aliases, interfaceDescriptor)
+			})
 		}
 
 		// All interfaces of one registration share the instance the constructor produces
@@ -700,12 +679,63 @@ func (r *collection) addService(service any, lifetime Lifetime, opts ...AddOptio
 			}
 		}
 
+		// Register the interface descriptors (all of them, or none if one is rejected)
+		if err := r.registerDescriptors(aliases, "register as interface"); err != nil {
+			return err
+		}
+
 		// If As is specified, we only register under interface types, not the concrete type
 		return nil
 	}
 
 	// Register the descriptor normally
 	return r.registerDescriptor(descriptor)
+}
+
+// registerDescriptors registers the descriptors created by one Add call. The call is
+// atomic: every descriptor is checked first, so a rejected registration leaves the
+// collection exactly as it was.
+func (r *collection) registerDescriptors(descriptors []*Descriptor, operation string) error {
+	claimed := make(map[TypeKey]struct{}, len(descriptors))
+	for _, descriptor := range descriptors {
+		if descriptor.Key == nil && descriptor.Group != "" {
+			continue // group members never collide
+		}
+
+		key := TypeKey{Type: descriptor.Type, Key: descriptor.Key}
+		_, exists := r.services[key]
+		_, repeated := claimed[key]
+		if exists || repeated {
+			var cause error = &AlreadyRegisteredError{ServiceType: descriptor.Type}
+			if descriptor.Key != nil {
+				cause = &RegistrationError{
+					ServiceType: descriptor.Type,
+					Operation:   "register",
+					Cause:       cause,
+				}
+			}
+
+			return &RegistrationError{
+				ServiceType: descriptor.Type,
+				Operation:   operation,
+				Cause:       cause,
+			}
+		}
+
+		claimed[key] = struct{}{}
+	}
+
+	for _, descriptor := range descriptors {
+		if err := r.registerDescriptor(descriptor); err != nil {
+			return &RegistrationError{
+				ServiceType: descriptor.Type,
+				Operation:   operation,
+				Cause:       err,
+			}
+		}
+	}
+
+	return nil
 }
 
 // registerDescriptor registers a descriptor in the appropriate collections based on its type.
